@@ -193,13 +193,35 @@ fn parse_date_string(s: &str) -> f64 {
 /// Parse ISO 8601 date format
 fn parse_iso8601(s: &str) -> Option<f64> {
     // Split date and time parts
-    let (date_part, time_part) = if let Some(t_pos) = s.find('T') {
-        (
-            s.get(..t_pos)?,
-            Some(s.get(t_pos + 1..)?.trim_end_matches('Z')),
-        )
+    let (date_part, time_text) = if let Some(t_pos) = s.find('T') {
+        (s.get(..t_pos)?, Some(s.get(t_pos + 1..)?))
     } else {
         (s, None)
+    };
+
+    // The time may end in a zone designator: Z or +HH:MM / -HH:MM
+    let (time_part, offset_minutes) = match time_text {
+        None => (None, 0i64),
+        Some(t) => {
+            if let Some(stripped) = t.strip_suffix('Z') {
+                (Some(stripped), 0)
+            } else if let Some(sign_pos) = t.rfind(['+', '-']) {
+                let zone = t.get(sign_pos + 1..)?;
+                let (zh, zm) = zone.split_once(':')?;
+                if zh.len() != 2 || zm.len() != 2 {
+                    return None;
+                }
+                let zh: i64 = zh.parse().ok()?;
+                let zm: i64 = zm.parse().ok()?;
+                if zh > 23 || zm > 59 {
+                    return None;
+                }
+                let sign = if t.get(sign_pos..sign_pos + 1) == Some("-") { -1 } else { 1 };
+                (Some(t.get(..sign_pos)?), sign * (zh * 60 + zm))
+            } else {
+                (Some(t), 0)
+            }
+        }
     };
 
     // Parse date: YYYY-MM-DD or YYYY-MM or YYYY
@@ -224,7 +246,7 @@ fn parse_iso8601(s: &str) -> Option<f64> {
         (month - 1) as i32,
         day as i32,
         hour,
-        minute,
+        minute as i64 - offset_minutes,
         second,
         ms,
     ))
@@ -304,7 +326,7 @@ pub fn init_date_prototype(interp: &mut Interpreter) {
 
     // Conversion methods
     interp.register_method(&proto, "toISOString", date_to_iso_string, 0);
-    interp.register_method(&proto, "toJSON", date_to_iso_string, 0);
+    interp.register_method(&proto, "toJSON", date_to_json, 1);
     interp.register_method(&proto, "valueOf", date_get_time, 0);
     interp.register_method(&proto, "toString", date_to_string, 0);
     interp.register_method(&proto, "toDateString", date_to_date_string, 0);
@@ -613,11 +635,32 @@ pub fn date_to_iso_string(
     let Some(c) = ts_to_components(ts) else {
         return Err(JsError::range_error("Invalid Date"));
     };
+    // Years outside 0..=9999 use the expanded form: sign and six digits
+    let year = if (0..=9999).contains(&c.year) {
+        format!("{:04}", c.year)
+    } else if c.year < 0 {
+        format!("-{:06}", -(c.year as i64))
+    } else {
+        format!("+{:06}", c.year)
+    };
     let iso = format!(
-        "{:04}-{:02}-{:02}T{:02}:{:02}:{:02}.{:03}Z",
-        c.year, c.month, c.day, c.hour, c.minute, c.second, c.ms
+        "{}-{:02}-{:02}T{:02}:{:02}:{:02}.{:03}Z",
+        year, c.month, c.day, c.hour, c.minute, c.second, c.ms
     );
     Ok(Guarded::unguarded(JsValue::String(JsString::from(iso))))
+}
+
+/// Date.prototype.toJSON: null for an invalid date, the ISO string otherwise
+pub fn date_to_json(
+    interp: &mut Interpreter,
+    this: JsValue,
+    args: &[JsValue],
+) -> Result<Guarded, JsError> {
+    let ts = get_date_timestamp(&this)?;
+    if !ts.is_finite() {
+        return Ok(Guarded::unguarded(JsValue::Null));
+    }
+    date_to_iso_string(interp, this, args)
 }
 
 // Setter methods
@@ -650,6 +693,12 @@ pub fn date_set_full_year(
     this: JsValue,
     args: &[JsValue],
 ) -> Result<Guarded, JsError> {
+    if args.iter().take(3).any(|v| !v.to_number().is_finite()) || args.is_empty() {
+        // a missing or non-finite component makes the date invalid
+        get_date_timestamp(&this)?;
+        let ts = set_date_timestamp(&this, f64::NAN)?;
+        return Ok(Guarded::unguarded(JsValue::Number(ts)));
+    }
     let current_ts = get_date_timestamp(&this)?;
     let Some(c) = ts_to_components(current_ts) else {
         return Ok(Guarded::unguarded(JsValue::Number(f64::NAN)));
@@ -677,6 +726,12 @@ pub fn date_set_month(
     this: JsValue,
     args: &[JsValue],
 ) -> Result<Guarded, JsError> {
+    if args.iter().take(2).any(|v| !v.to_number().is_finite()) || args.is_empty() {
+        // a missing or non-finite component makes the date invalid
+        get_date_timestamp(&this)?;
+        let ts = set_date_timestamp(&this, f64::NAN)?;
+        return Ok(Guarded::unguarded(JsValue::Number(ts)));
+    }
     let current_ts = get_date_timestamp(&this)?;
     let Some(c) = ts_to_components(current_ts) else {
         return Ok(Guarded::unguarded(JsValue::Number(f64::NAN)));
@@ -701,6 +756,12 @@ pub fn date_set_date(
     this: JsValue,
     args: &[JsValue],
 ) -> Result<Guarded, JsError> {
+    if args.iter().take(1).any(|v| !v.to_number().is_finite()) || args.is_empty() {
+        // a missing or non-finite component makes the date invalid
+        get_date_timestamp(&this)?;
+        let ts = set_date_timestamp(&this, f64::NAN)?;
+        return Ok(Guarded::unguarded(JsValue::Number(ts)));
+    }
     let current_ts = get_date_timestamp(&this)?;
     let Some(c) = ts_to_components(current_ts) else {
         return Ok(Guarded::unguarded(JsValue::Number(f64::NAN)));
@@ -729,6 +790,12 @@ pub fn date_set_hours(
     this: JsValue,
     args: &[JsValue],
 ) -> Result<Guarded, JsError> {
+    if args.iter().take(4).any(|v| !v.to_number().is_finite()) || args.is_empty() {
+        // a missing or non-finite component makes the date invalid
+        get_date_timestamp(&this)?;
+        let ts = set_date_timestamp(&this, f64::NAN)?;
+        return Ok(Guarded::unguarded(JsValue::Number(ts)));
+    }
     let current_ts = get_date_timestamp(&this)?;
     let Some(c) = ts_to_components(current_ts) else {
         return Ok(Guarded::unguarded(JsValue::Number(f64::NAN)));
@@ -761,6 +828,12 @@ pub fn date_set_minutes(
     this: JsValue,
     args: &[JsValue],
 ) -> Result<Guarded, JsError> {
+    if args.iter().take(3).any(|v| !v.to_number().is_finite()) || args.is_empty() {
+        // a missing or non-finite component makes the date invalid
+        get_date_timestamp(&this)?;
+        let ts = set_date_timestamp(&this, f64::NAN)?;
+        return Ok(Guarded::unguarded(JsValue::Number(ts)));
+    }
     let current_ts = get_date_timestamp(&this)?;
     let Some(c) = ts_to_components(current_ts) else {
         return Ok(Guarded::unguarded(JsValue::Number(f64::NAN)));
@@ -792,6 +865,12 @@ pub fn date_set_seconds(
     this: JsValue,
     args: &[JsValue],
 ) -> Result<Guarded, JsError> {
+    if args.iter().take(2).any(|v| !v.to_number().is_finite()) || args.is_empty() {
+        // a missing or non-finite component makes the date invalid
+        get_date_timestamp(&this)?;
+        let ts = set_date_timestamp(&this, f64::NAN)?;
+        return Ok(Guarded::unguarded(JsValue::Number(ts)));
+    }
     let current_ts = get_date_timestamp(&this)?;
     let Some(c) = ts_to_components(current_ts) else {
         return Ok(Guarded::unguarded(JsValue::Number(f64::NAN)));
@@ -820,6 +899,12 @@ pub fn date_set_milliseconds(
     this: JsValue,
     args: &[JsValue],
 ) -> Result<Guarded, JsError> {
+    if args.iter().take(1).any(|v| !v.to_number().is_finite()) || args.is_empty() {
+        // a missing or non-finite component makes the date invalid
+        get_date_timestamp(&this)?;
+        let ts = set_date_timestamp(&this, f64::NAN)?;
+        return Ok(Guarded::unguarded(JsValue::Number(ts)));
+    }
     let current_ts = get_date_timestamp(&this)?;
     let Some(c) = ts_to_components(current_ts) else {
         return Ok(Guarded::unguarded(JsValue::Number(f64::NAN)));
